@@ -3896,7 +3896,7 @@ class AlterSubscriptionStatementSegment(BaseSegment):
                     Ref("ObjectReferenceSegment"),
                     "CURRENT_ROLE",
                     "CURRENT_USER",
-                    "CURRENT_SESSION",
+                    "SESSION_USER",
                 ),
             ),
             Sequence("RENAME", "TO", Ref("SubscriptionReferenceSegment")),
